@@ -76,6 +76,111 @@ def state_rule(ctx: Ctx, res: Result, RID: str):
             res.fail(Finding(RID, worker.qname, c, worker.loc(c), "process() is called outside `with action_context(...)`: the hit is never recorded"))
 
 
+COPY_DEEP = {"copy.deepcopy", "pickle.loads", "pickle.dumps", "marshal.loads"}
+COPY_SHALLOW = {"copy.copy"}
+STATEFUL = ("deep.api.tracepoint.trigger.Trigger", LA, STATS)
+
+
+def _type_mentions(ctx, tys, classes, deep=True, depth=0):
+    """Does a type term (or, when deep, anything nested in it) denote an instance of one of the classes?"""
+    p = ctx.prog
+    for ty in tys:
+        if ty[0] == "inst":
+            c = p.classes.get(ty[1])
+            if c is not None and any(k.qname in classes for k in c.mro):
+                return True
+        elif deep and depth < 4 and ty[0] in ("seq", "map", "tuple"):
+            for part in ty[1:]:
+                if isinstance(part, frozenset) and _type_mentions(ctx, part, classes, deep, depth + 1):
+                    return True
+                if isinstance(part, tuple):
+                    for pp in part:
+                        if isinstance(pp, frozenset) and _type_mentions(ctx, pp, classes, deep, depth + 1):
+                            return True
+    return False
+
+
+def identity_rule(ctx: Ctx, res: Result, RID: str):
+    """The fire statistics live in the LocationAction objects: while a tracepoint stays installed the handler must
+    consult (and record on) the very objects the config service keeps publishing - never a copy, which starts
+    again from zero fires at the next publication."""
+    p, t = ctx.prog, ctx.types
+    acls = set()
+    for q in STATEFUL:
+        acls.add(p.cls(q).qname)
+    # (a) the statistics object is created once per action and only advanced by fire()
+    la = p.cls(LA)
+    stores = [(sf, v) for k in la.mro for nm in {"__stats", k.mangle("__stats")} for sf, v, _ in t._attr_store_index().get((k.qname, nm), [])]
+    need(stores, "LocationAction: the statistics field was not found")
+    for sf, v in stores:
+        if sf.name == "__init__":
+            res.ok(RID, {"statistics created in": sf.qname})
+        else:
+            res.fail(Finding(RID, sf.qname, paths.stmt_of(p, v), sf.loc(v), "the fire statistics of an installed action are replaced outside its constructor: its count/period state starts again"))
+    st = p.cls(STATS)
+    for (cq, attr), lst in sorted(t._attr_store_index().items()):
+        if cq != STATS:
+            continue
+        for sf, v, _ in lst:
+            if sf.cls is st and sf.name in ("__init__", "fire"):
+                res.ok(RID)
+            else:
+                res.fail(Finding(RID, sf.qname, paths.stmt_of(p, v) if v is not None else attr, sf.loc(v) if v is not None else sf.loc(),
+                                 "fire statistics field %s is written outside __init__/fire()" % attr))
+    # (b) nobody copies a trigger / action / statistics object
+    ncopy = 0
+    for fi in p.functions.values():
+        for c in t.calls_in(fi):
+            ext = set(t.resolve_call(c, fi).ext)
+            if not ext & (COPY_DEEP | COPY_SHALLOW) or not c.args:
+                continue
+            ncopy += 1
+            tys = t.type_of(c.args[0], fi)
+            deep = bool(ext & COPY_DEEP)
+            if _type_mentions(ctx, tys, acls, deep=deep):
+                res.fail(Finding(RID, fi.qname, c, fi.loc(c),
+                                 "%s copies the object that carries the fire statistics: fires are recorded on the copy, and the next "
+                                 "publication of the retained original starts again from zero" % norm(c.func)))
+            else:
+                res.ok(RID)
+    res.analysed["copy calls inspected"] = ncopy
+    # (c) the list the event handler iterates is stored by reference from what the config service publishes
+    from ..deps import Deps
+    worker, roles = trace_worker(ctx)
+    hcls = worker.cls
+    need(hcls is not None, "trace worker is not a method")
+    dp = Deps(p, t)
+    seen_fields = set()
+    for f in [worker] + [g for c in t.calls_in(worker) for g in t.resolve_call(c, worker).repo if g.cls is hcls]:
+        for lp in t.nodes_in(f, (ast.For, ast.comprehension)):
+            it = lp.iter
+            if isinstance(it, ast.Attribute) and isinstance(it.value, ast.Name) and it.value.id == "self":
+                if _type_mentions(ctx, t.type_of(it, f), acls):
+                    seen_fields.add(it.attr)
+    need(seen_fields, "the trigger list iterated by the event handler was not found")
+    for fld in sorted(seen_fields):
+        for sf, v, _ in t.field_stores(hcls, fld):
+            if v is None or sf.name == "__init__":
+                continue
+            val = dp.value(v, sf)
+            made = sorted({o.cls.qname for o in _all_objs(val) if any(k.qname in acls for k in o.cls.mro)})
+            if made:
+                res.fail(Finding(RID, sf.qname, paths.stmt_of(p, v), sf.loc(v),
+                                 "the handler stores newly constructed %s objects instead of the published ones: their fire statistics are lost at every update" % made))
+            else:
+                res.ok(RID, {"handler list stored by reference": norm(v)[:60]})
+
+
+def _all_objs(val, seen=None):
+    seen = seen if seen is not None else set()
+    for o in val.objs:
+        if id(o) in seen:
+            continue
+        seen.add(id(o))
+        yield o
+        for v in o.params.values():
+            yield from _all_objs(v, seen)
+
 
 def run(ctx: Ctx, tier: str) -> Result:
     res = Result("C04")
@@ -91,7 +196,7 @@ def run(ctx: Ctx, tier: str) -> Result:
     res.not_decided = ["actual clock values and wall-clock monotonicity", "real thread interleavings (the critical-section rule is the static stand-in)"]
     for rid, text in (("C04.TABLE", "can_trigger decision table"), ("C04.WINDOW", "in_window decision table"),
                       ("C04.UNITS", "one ns timestamp feeds check and record; period ms->ns; fire() +1"),
-                      ("C04.STATE", "record_triggered iff process() started"),
+                      ("C04.STATE", "record_triggered iff process() started; statistics objects never copied or replaced"),
                       ("C04.INT", "unparsable fire_count/fire_period fall back to the default"),
                       ("C04.KEYS", "every limit key read is written by every builder"),
                       ("C04.ATOMIC", "check-then-record inside one critical section")):
@@ -232,6 +337,7 @@ def run(ctx: Ctx, tier: str) -> Result:
 
     # ---------------- STATE
     state_rule(ctx, res, "C04.STATE")
+    identity_rule(ctx, res, "C04.STATE")
 
     # ---------------- INT
     gi = p.func(LA + ".__get_int")
